@@ -271,6 +271,30 @@ def r2_random_sources(ctx) -> None:
             for x in ast.walk(st):
                 if isinstance(x, ast.Call) and (call_name(x).startswith(RANDOM_CALLS) or call_name(x) in RANDOM_CALLS):
                     r.violation("C20.R2", m.name, short(x, 100), "nondeterministic value computed at import time", f"{m.relpath}:{x.lineno}")
+    # default object repr: a value type without __str__/__repr__ prints its memory address wherever it is interpolated
+    # (error messages such as "incompatible to value type of '<...SigmaNull object at 0x7f...>'")
+    n_vt = 0
+    for cq in sorted(prog.subclasses("sigma.types.SigmaType", strict=True)):
+        ci = prog.cls(cq)
+        n_vt += 1
+        has = False
+        for b in prog.mro(cq):
+            bi = prog.classes.get(b)
+            if bi is None:
+                continue
+            if "__str__" in bi.methods or "__repr__" in bi.methods:
+                has = True
+            if bi.is_dataclass and not any("repr=False" in d.replace(" ", "") for d in bi.decorators):
+                has = True
+            if any(x.split(".")[-1] in ("Enum", "IntEnum", "str", "int") for x in bi.bases):
+                has = True
+        loc = f"{ci.module.relpath}:{ci.node.lineno}"
+        if has:
+            r.ok("C20.R2", cq, "has __str__/__repr__ (own, inherited or dataclass-generated)", loc)
+        else:
+            r.violation("C20.R2", cq, f"class {ci.name}: default object repr", "instances print as '<… object at 0x…>': every message that interpolates such a value (e.g. the type error of a modifier) contains a memory address and differs between runs — and between the error raised in strict mode and the one collected in collecting mode", loc)
+    if n_vt < 10:
+        raise AnalysisError("fewer than 10 SigmaType subclasses found")
     # conversion code must not read the places random names live in
     for q, fi in sorted(prog.funcs.items()):
         if not fi.module.name.startswith(("sigma.conversion", "sigma.backends")):
